@@ -37,6 +37,14 @@ enum Handle {
 /// `vx lock-contender <dir>`: O = open a store, U = open a dump, D = drop the
 /// most recent handle, R = drop everything. Replies one line per command.
 pub fn contender_main(dir: &str) -> i32 {
+    // the endurance run lowers the descriptor limit, so that a handle leaked per
+    // attempt shows after a few hundred attempts
+    if let Some(n) = std::env::var("VX_NOFILE").ok().and_then(|s| s.parse::<u64>().ok()) {
+        unsafe {
+            let lim = libc::rlimit { rlim_cur: n, rlim_max: n };
+            libc::setrlimit(libc::RLIMIT_NOFILE, &lim);
+        }
+    }
     let cfg = Cfg::records(3).to_config(dir);
     let mut held: Vec<Handle> = vec![];
     let stdin = std::io::stdin();
@@ -84,8 +92,15 @@ struct Contender {
 
 impl Contender {
     fn spawn(dir: &str) -> Self {
+        Self::spawn_with(dir, None)
+    }
+    fn spawn_with(dir: &str, nofile: Option<u64>) -> Self {
         let exe = std::env::current_exe().unwrap();
-        let mut child = Command::new(exe)
+        let mut cmd = Command::new(exe);
+        if let Some(n) = nofile {
+            cmd.env("VX_NOFILE", n.to_string());
+        }
+        let mut child = cmd
             .args(["lock-contender", dir])
             .stdin(Stdio::piped())
             .stdout(Stdio::piped())
@@ -227,7 +242,11 @@ pub fn run(rep: &Reporter, thorough: bool) -> Value {
     // a store open that FAILS after it took the lock (gap between chunks) must
     // release it: the same exploration on a directory no store can open
     let b = run_flavour(rep, if thorough { 6 } else { 4 }, false, seed_files_gap(), "middle chunk missing (no store can open it)");
+    let e = endurance(rep, thorough);
     let mut out = a.clone();
+    if let Some(o) = out.as_object_mut() {
+        o.insert("endurance".to_string(), e);
+    }
     if let (Some(o), Some(bo)) = (out.as_object_mut(), b.as_object()) {
         for k in ["states", "transitions", "traces_validated_against_impl"] {
             let n = o[k].as_u64().unwrap_or(0) + bo[k].as_u64().unwrap_or(0) + c[k].as_u64().unwrap_or(0);
@@ -237,6 +256,68 @@ pub fn run(rep: &Reporter, thorough: bool) -> Value {
         o.insert("empty_newest_chunk_flavour".to_string(), c.clone());
     }
     out
+}
+
+/// Many repetitions of the same attempt: a handle, lock or thread leaked per
+/// attempt only shows after hundreds of them (contenders run with a descriptor
+/// limit of 256).
+fn endurance(rep: &Reporter, thorough: bool) -> Value {
+    let n = if thorough { 3000 } else { 400 };
+    let dir = ScratchDir::new();
+    restore(&dir.path, &seed_files());
+    let mut p0 = Contender::spawn_with(&dir.path, Some(256));
+    let mut p1 = Contender::spawn_with(&dir.path, Some(256));
+    let mk = |key: &str, what: String| Violation {
+        prop: rep.prop.clone(),
+        key: key.to_string(),
+        what: format!("{} | endurance run ({} repetitions, descriptor limit 256)", what, n),
+        replay: json!({"engine":"lockx","sequence": "endurance", "repetitions": n}),
+    };
+    let mut steps = 0u64;
+    // one owner, hundreds of refused attempts of both kinds, then hand-over
+    let r = p0.cmd('O');
+    steps += 1;
+    if r != "ok" {
+        rep.report(mk("free-directory-refused", format!("first open of a free directory: {}", r)));
+        return json!({"steps": steps});
+    }
+    let before = imagex::read_files(&dir.path);
+    for k in 0..n {
+        for cmd in ['O', 'U'] {
+            let r = p1.cmd(cmd);
+            steps += 1;
+            if r == "ok" || r == "panic" {
+                rep.report(mk("second-owner-admitted", format!("refused attempt {} ({}) returned {}", k, cmd, r)));
+                return json!({"steps": steps});
+            }
+        }
+    }
+    if imagex::read_files(&dir.path) != before {
+        rep.report(mk("refused-attempt-modified-files", "chunk files changed during the refused attempts".to_string()));
+    }
+    p0.cmd('D');
+    for cmd in ['O', 'U'] {
+        let r = p1.cmd(cmd);
+        steps += 2;
+        if r != "ok" {
+            rep.report(mk("free-directory-refused", format!("after {} refused attempts and the owner's drop, {} by the same contender: {}", 2 * n, cmd, r)));
+            return json!({"steps": steps});
+        }
+        p1.cmd('D');
+    }
+    // hundreds of open/drop cycles in one process
+    for k in 0..n {
+        for cmd in ['O', 'U'] {
+            let r = p0.cmd(cmd);
+            steps += 2;
+            if r != "ok" {
+                rep.report(mk("free-directory-refused", format!("open/drop cycle {} ({}): {}", k, cmd, r)));
+                return json!({"steps": steps});
+            }
+            p0.cmd('D');
+        }
+    }
+    json!({"steps": steps, "repetitions": n, "descriptor_limit": 256})
 }
 
 fn run_flavour(rep: &Reporter, depth: usize, store_opens: bool, seed: Vec<(String, Vec<u8>)>, flavour: &str) -> Value {
